@@ -47,7 +47,7 @@ ASSUMPTIONS = [
 PROBES = ['comment_only_line', 'cli_init_sets_format_or_numberify', 'cli_output_file_preexisting', 'run_default_close_non_select', 'run_listing_after_missing_name', 'bookkeeping_command', 'several_lines_in_one_cmdloop', 'bare_non_legacy_word', 'named_query_text_typed_after_run', 'render_after_setting_change', 'numberify_on_render', 'csv_render', 'boxed_unicode_render', 'empty_text_result',
           'run_default_close_applied', 'run_explicit_close_kept', 'invalid_set_rejected', 'either_or_value', 'writer_fault_prefix',
           'second_session_isolated', 'cmdloop_error_path', 'dot_keyword_not_executed', 'legacy_bare_command', 'print_statement',
-          'cli_output_file', 'cli_quiet_with_errors', 'cli_stdin_query', 'cli_init_file', 'nullvalue_rendered', 'expand_render']
+          'cli_output_file', 'cli_quiet_with_errors', 'cli_stdin_query', 'cli_init_file', 'nullvalue_rendered', 'expand_render', 'malformed_quoting_argument']
 
 BOOLS = ['boxed', 'expand', 'narrow', 'numberify', 'pager', 'spaced', 'unicode']
 DEFAULTS = {'boxed': False, 'expand': False, 'format': 'text', 'narrow': True, 'nullvalue': '', 'numberify': False,
@@ -167,6 +167,10 @@ def gen_set(rng):
         return {'op': 'set_show', 'name': rng.choice(list(DEFAULTS) + ['nosuch', 'todict', '__doc__', 'setstr'])}
     if r < 0.25:
         return {'op': 'set_arity', 'name': rng.choice(list(DEFAULTS)), 'args': ['true', 'false']}
+    if r < 0.29:
+        # a value (or name) whose quoting is never closed: an invalid argument like any other
+        return {'op': 'badquote', 'text': rng.choice(['.set nullvalue "abc', ".set boxed 'true", '.set format "csv', ".set nullvalue '",
+                                                      '.set "boxed true', ".set unicode 'no", 'set spaced "on'])}
     name = rng.choice(BOOLS * 2 + ['format'] * 4 + ['nullvalue'] * 3 + ['nosuch', 'Boxed', 'todict', 'getstr', '__doc__', '_parse_bool'])
     if name in BOOLS:
         v = rng.choice(TRUE + FALSE + [x.upper() for x in TRUE[:3] + FALSE[:3]] + ['True', 'False', 'maybe', '2', 'tru', '', ' yes ', 'on '])
@@ -713,6 +717,19 @@ def execute(case, keep_log=False):
                     violation('statement-executed-as-command', where, op, 'error, no output', (got or so)[:200])
                 elif not errored(exc, err, s['mode']):
                     violation('statement-executed-as-command', where, op, 'error reported', 'no error')
+            elif k == 'badquote':
+                # "invalid values ... produce an error message and change nothing": the shell reports it like
+                # every other invalid argument - a message, not an exception thrown at whoever fed the line
+                # (the command-line entry point feeds its argument through onecmd unguarded)
+                got, err, so, exc, _ = feed(ci, op['text'])
+                log.add(where, k, op['text'], bool(got), has_error(err), core.exc_class(exc) if exc else None)
+                S.probes['malformed_quoting_argument'] += 1
+                if exc is not None:
+                    violation('malformed-argument-raised', where, op, 'error message', f'{core.exc_class(exc)}: {exc}'[:200])
+                elif got or so or S.scans != scans0:
+                    violation('malformed-argument-executed', where, op, 'error message, no output', (got or so)[:200])
+                elif not has_error(err):
+                    violation('malformed-argument-no-error', where, op, 'error message', err[:200])
             elif k in ('unknown', 'dotkw'):
                 got, err, so, exc, _ = feed(ci, op['text'])
                 log.add(where, k, op['text'], bool(got), has_error(err), core.exc_class(exc) if exc else None)
@@ -945,7 +962,7 @@ def _line(case, op):
         return ('.set ' if k == 'set' else 'set ') + op['name'] + ' ' + shlex.quote(op['value'])
     if k == 'run':
         return '.run ' + (case['world']['named'][op['q']]['name'] if op['q'] is not None else 'nosuchquery') + f' <{op["form"]}>'
-    if k in ('unknown', 'dotkw', 'bareword', 'misc', 'comment_line'):
+    if k in ('unknown', 'dotkw', 'bareword', 'misc', 'comment_line', 'badquote'):
         return op['text']
     if k == 'script':
         return '<one cmdloop call> ' + ' | '.join(_line(case, sub) for sub in op['lines'])
